@@ -178,6 +178,82 @@ def opt(x):
     return "N" if x is None else hx(x)
 
 
+def show_node(node):
+    if type(node).__name__ == "UnknownNode":
+        return "U " + show_unknown(node)
+    nro = node.is_readonly() if hasattr(node, "is_readonly") else True
+    return "K %s %s %s" % (node_kind(node), b(nro) if hasattr(node, "is_readonly") else "-", b(node.is_mutable()))
+
+
+def monitor_node(ctx, node, rw, ro, deep, case, where):
+    """the statement on one node returned by create_from_cap — whatever the NodeMaker built before"""
+    if type(node).__name__ == "UnknownNode":
+        return
+    big = rw or ro
+    nro = node.is_readonly() if hasattr(node, "is_readonly") else True
+    nmu = node.is_mutable()
+    if deep and nmu:
+        ctx.violation("create_from_cap(deep_immutable) returned a mutable node", case, where + "node-mutable-in-immutable")
+    if big.startswith(b"ro.") and not nro:
+        ctx.violation("create_from_cap returned a writeable node for a ro. cap", case, where + "node-writeable-from-ro")
+    if big.startswith(b"imm.") and (nmu or not nro):
+        ctx.violation("create_from_cap returned a mutable/writeable node for an imm. cap", case, where + "node-mutable-from-imm")
+
+
+def variants(s):
+    """every prefix / slot / deep_immutable combination of one cap string"""
+    out = []
+    for pre in (b"", b"ro.", b"imm."):
+        for slot in ("w", "r", "wr"):
+            for deep in (False, True):
+                u = pre + s
+                out.append((u if "w" in slot else None, u if "r" in slot else None, deep))
+    return out
+
+
+def run_histories(ctx, objs):
+    """create_from_cap as HISTORIES on one real NodeMaker, all returned nodes kept alive (the node cache is a
+    WeakValueDictionary): bare cap first then every prefix/slot/context combination, the reverse, and shuffles
+    mixing two caps."""
+    from allmydata.nodemaker import NodeMaker
+    rng = ctx.rng
+    per_kind = ctx.budget(4, 60)
+    hists = []
+    by_kind = {}
+    for c in objs:
+        by_kind.setdefault(U.tag_of(c), []).append(c)
+    for kind, cs in sorted(by_kind.items()):
+        for c in cs[:per_kind]:
+            s = c.to_string()
+            v = variants(s)
+            bare = [(s, None, False), (None, s, False), (s, None, True), (None, s, True)]
+            shuffled = v[:]
+            rng.shuffle(shuffled)
+            hists.append(("bare-first", bare + shuffled))
+            hists.append(("prefixed-first", [x for x in shuffled if (x[0] or x[1]) != s] + bare + shuffled))
+            other = rng.choice(objs).to_string()
+            mix = v + variants(other) + bare
+            rng.shuffle(mix)
+            hists.append(("mixed", bare[:1] + mix))
+    lines, impl, cases = [], [], []
+    for label, calls in hists:
+        nm = NodeMaker(_SB(), None, None, None, _Term(), {"k": 3, "n": 10}, None, None)
+        alive, outs = [], []
+        case = {"history": [[opt(w), opt(r), d] for (w, r, d) in calls], "label": label}
+        for i, (w, r, d) in enumerate(calls):
+            node = nm.create_from_cap(w, r, deep_immutable=d)
+            alive.append(node)
+            monitor_node(ctx, node, w, r, d, dict(case, step=i), "hist-")
+            outs.append(show_node(node))
+            ctx.case(("hist", label, i, w, r, d))
+            ctx.count("hist:" + label)
+        lines.append("hist " + " ".join("c:%d:%s:%s" % (d, opt(w), opt(r)) for (w, r, d) in calls))
+        impl.append(";".join(outs))
+        cases.append(case)
+        del alive
+    ctx.compare("create_from_cap histories on one NodeMaker (nodes kept alive)", cases, impl, ctx.model(lines))
+
+
 def run(ctx):
     from allmydata import uri
     from allmydata.unknown import UnknownNode, strip_prefix_for_ro
@@ -306,4 +382,5 @@ def run(ctx):
             ctx.case(("cfc", deep, rw, ro) if (rw or ro) else None)
             ctx.count("cfc:" + out.split()[0] + (":" + out.split()[1] if out[0] == "K" else ""))
     ctx.compare("UnknownNode(rw, ro, deep) and create_from_cap(w, r, deep)", cases, impl, ctx.model(lines))
+    run_histories(ctx, objs)
     ctx.sample({"cap": U.describe(objs[0]), "att": impl_att(objs[0])})
